@@ -79,7 +79,7 @@ CHECKS = {
                 note="Trusted: Kani/CBMC; fpdec's contract (panic only on zero divisor / unrepresentable result). Formatting operations are outside (C15 n/a). One recorded known finding (amount product before scale in derived operators).", ref="7 C18"),
     "C16": dict(engine="kani", technique="Kani/CBMC bounded model checking (SAT) over symbolic index / i8 / bounded strings",
                 text="Bounded model checking of the compiled SIPrefix code against the SI-brochure table: every iterated prefix (symbolic index), "
-                     "from_exp for all 256 i8 values, from_abbr for every UTF-8 string up to 3 bytes (4 in thorough), pairwise distinctness. "
+                     "from_exp for all 256 i8 values, from_abbr for every UTF-8 string up to 3 bytes (8 in thorough), pairwise distinctness. "
                      "The finite parts are exhaustive by the solver; strings are bounded.",
                 note="Trusted: Kani's MIR->GOTO translation, CBMC, the SAT solver, the hand-written SI table in spec/catalogue.py. Strings longer than the bound are outside the claim.",
                 ref="7 C16"),
